@@ -30,7 +30,10 @@ def c_signatures():
     except Exception:
         pass
     sigs = {}
-    for m in re.finditer(r'extern\s+"C"\s+([\w\s\*]+?)\s+(\w+)\s*\(([^)]*(?:\([^)]*\)[^)]*)*)\)\s*\{', txt):
+    fn_typedefs = function_pointer_typedefs(txt)
+    # every definition of a function named masa_* with a C return type (int/double/void): written with its own extern "C", inside an
+    # extern "C" { } block, or produced by a macro -- whether it has C linkage is decided by the IR (unmangled symbol), not by this text
+    for m in re.finditer(r'(?<![\w:>])(?:extern\s+"C"\s+)?(?:const\s+)?(int|double|void)\s+(masa_\w+)\s*\(([^)]*(?:\([^)]*\)[^)]*)*)\)\s*\{', txt):
         ret, name, params = m.group(1).strip(), m.group(2), m.group(3)
         kinds = []
         depth, cur, parts = 0, '', []
@@ -47,25 +50,38 @@ def c_signatures():
         if cur.strip():
             parts.append(cur)
         for p in parts:
-            p = p.strip()
-            if p in ('', 'void'):
-                continue
-            if '(*' in p:
-                kinds.append('fn')
-            elif 'char' in p and '*' in p:
-                kinds.append('cstr' if 'const' in p else 'charbuf')
-            elif 'int' in p and '*' in p:
-                kinds.append('intp')
-            elif 'double' in p and ('*' in p or '[' in p):
-                kinds.append('dblp')
-            elif p.startswith('double'):
-                kinds.append('dbl')
-            elif p.startswith('int'):
-                kinds.append('int')
-            else:
-                kinds.append('?' + p)
+            k_ = param_kind(p, fn_typedefs)
+            if k_ is not None:
+                kinds.append(k_)
         sigs[name] = (ret, kinds)
     return sigs
+
+
+def function_pointer_typedefs(txt):
+    """names introduced by `typedef R (*name)(args);`"""
+    return set(re.findall(r'typedef\s+[\w\s\*]+?\(\s*\*\s*(\w+)\s*\)\s*\([^)]*\)\s*;', txt))
+
+
+def param_kind(p, fn_typedefs=()):
+    """classification of one C parameter declaration: dbl | int | cstr | charbuf | intp | dblp | fn (None for void / empty)"""
+    p = p.strip()
+    if p in ('', 'void'):
+        return None
+    words = re.findall(r'\w+', p)
+    if '(*' in p.replace(' ', '') or (words and any(w in fn_typedefs for w in words)):
+        return 'fn'
+    ptr = '*' in p or '[' in p
+    if 'char' in words and ptr:
+        return 'cstr' if 'const' in words else 'charbuf'
+    if 'int' in words and ptr:
+        return 'intp'
+    if 'double' in words and ptr:
+        return 'dblp'
+    if 'double' in words:
+        return 'dbl'
+    if 'int' in words:
+        return 'int'
+    return '?' + p
 
 
 def expected_callee(cname):
